@@ -52,7 +52,7 @@ def _env():
             return {k: [int(x) for x in v.split('.')] for k, v in d.items()}
     class App2(App):
         """parent that pins two components"""
-        _COMPONENTS_VERSIONS_LOCATIONS = {'lib': 'DEPENDS', 'lib2': 'DEPENDS'}
+        _COMPONENTS_VERSIONS_LOCATIONS = {'lib': 'DEPENDS', 'lib2': 'DEPENDS2'}      # each in its own file
     _ENV.update(App2=App2)
     _ENV.update(Lib=Lib, LibV=LibV, LibS=LibS, App=App, ReposCollection=ReposCollection, RBuild=RBuild, ProjectRepo=ProjectRepo)
     return _ENV
@@ -105,9 +105,7 @@ def observe(case):
         ps = sorted(h['parents'][c - 1], reverse=(c % 2 == 1))
         files = {'DEPENDS': json.dumps({'lib': '%d.%d.%d' % (cmaj, minor(case['pin'][c - 1]), 100 + 2 * case['pin'][c - 1] + (1 if case['pin2'][c - 1] else 0))})}
         if two:
-            d = json.loads(files['DEPENDS'])
-            d['lib2'] = pin_lib2
-            files = {'DEPENDS': json.dumps(d)}
+            files = {'DEPENDS': files['DEPENDS'], 'DEPENDS2': json.dumps({'lib2': pin_lib2})}
         app_commits[c] = (ps, ('BUG-7 app %d' % c) if h['match'][c - 1] else 'app other %d' % c, files)
         if h['tagged'][c - 1]:
             app_tags[_tag(c)] = c
